@@ -33,6 +33,15 @@ impl Property for C03 {
             Tier::Thorough => PropConfig { cases: 4800000, max_tape: 400, shards: 16 },
         }
     }
+    /// The documented literal syntax on concrete types (the generic routes cannot use `flat_vec![x; N]`,
+    /// which needs a constant N and a Copy element): every form of flat_vec!, on its own and inside the
+    /// generated *Init types, over several garbage prefills and spare sizes.
+    fn prelude(&self, _reg: &Registry, shard: u32, _nshards: u32, _tier: Tier, st: &mut Stats) -> CaseResult {
+        if shard != 0 {
+            return Ok(());
+        }
+        literal_probes(st)
+    }
     fn run_case(&self, reg: &Registry, shape: usize, tape: &[u8], st: &mut Stats) -> CaseResult {
         let sh = &reg.shapes[shape];
         let ty = sh.ty();
@@ -147,4 +156,85 @@ impl Property for C03 {
         }
         Ok(())
     }
+}
+
+fn literal_probes(st: &mut Stats) -> CaseResult {
+    use crate::shapes::{AUnsizedEnum, AUnsizedEnumInitV2, AUnsizedStruct, AUnsizedStructInit};
+    use flatty::portable::le;
+    use flatty::{flat_vec, prelude::*, FlatVec};
+    for fill in [0u8, 0xff, 0xa5] {
+        for spare in [0usize, 1, 7, 40] {
+            macro_rules! probe {
+                ($ty:ty, $size:expr, $empl:expr, $what:expr, |$v:ident| $check:expr, $bytes:expr) => {{
+                    let n = $size + spare;
+                    let mut buf = Guarded::new(n, 0, spare % 2 == 0);
+                    buf.slice().fill(fill);
+                    st.eval(1);
+                    let r = lib(|| match <$ty>::new_in_place(buf.slice(), $empl) {
+                        Ok($v) => {
+                            let ok: bool = $check;
+                            let b = $v.as_bytes().to_vec();
+                            let val = <$ty>::validate(&b).is_ok();
+                            Ok((ok, b, val))
+                        }
+                        Err(e) => Err(format!("{:?}", e)),
+                    });
+                    let expect: Vec<i16> = $bytes; // -1 = padding
+                    match r {
+                        Err(p) => vfail!("panic", "{} into {} bytes panicked: {}", $what, n, p),
+                        Ok(Err(e)) => vfail!("refused", "{} into {} bytes (needs {}) failed: {}", $what, n, $size, e),
+                        Ok(Ok((ok, b, val))) => {
+                            if !ok {
+                                vfail!("readback", "{} into {} bytes (prefill {:#04x}) does not read back what the literal says; bytes {}", $what, n, fill, hex(&b));
+                            }
+                            if !val {
+                                vfail!("revalidate", "{}: as_bytes() does not validate: {}", $what, hex(&b));
+                            }
+                            if b.len() < expect.len() || expect.iter().zip(&b).any(|(e, g)| *e >= 0 && *e != *g as i16) {
+                                vfail!("image", "{}: bytes {} but the documented encoding starts with {:?} (-1 = padding)", $what, hex(&b), expect);
+                            }
+                        }
+                    }
+                    if let Err(m) = buf.check() {
+                        vfail!("canary", "{} into {} bytes: {}", $what, n, m);
+                    }
+                    st.nontrivial(($what, n, fill), || json!({"literal": $what, "buffer": n, "prefill": fill}));
+                }};
+            }
+            probe!(FlatVec<u16, u8>, 12, flat_vec![7u16; 5], "flat_vec![7u16; 5]", |v| v.as_slice() == [7u16; 5], vec![5, -1, 7, 0, 7, 0, 7, 0, 7, 0, 7, 0]);
+            probe!(FlatVec<u16, u8>, 2, flat_vec![7u16; 0], "flat_vec![7u16; 0]", |v| v.is_empty(), vec![0]);
+            probe!(FlatVec<u8, u8>, 1, flat_vec![], "flat_vec![]", |v| v.len() == 0, vec![0]);
+            probe!(FlatVec<u8, u8>, 2, flat_vec![9u8], "flat_vec![9u8]", |v| v.as_slice() == [9u8], vec![1, 9]);
+            probe!(FlatVec<u8, u16>, 6, flat_vec![1u8, 2, 3,], "flat_vec![1u8, 2, 3,]", |v| v.as_slice() == [1u8, 2, 3], vec![3, 0, 1, 2, 3]);
+            probe!(FlatVec<[u8; 3], u16>, 14, flat_vec![[1u8, 2, 3]; 4], "flat_vec![[1u8, 2, 3]; 4]", |v| v.as_slice() == [[1u8, 2, 3]; 4], vec![4, 0, 1, 2, 3, 1, 2, 3, 1, 2, 3, 1, 2, 3]);
+            probe!(
+                FlatVec<le::U32, le::U16>,
+                14,
+                flat_vec![le::U32::from(0x0102_0304u32); 3],
+                "flat_vec![le::U32::from(0x01020304); 3]",
+                |v| v.len() == 3 && v.iter().all(|x| u32::from(*x) == 0x0102_0304),
+                vec![3, 0, 4, 3, 2, 1, 4, 3, 2, 1, 4, 3, 2, 1]
+            );
+            probe!(
+                AUnsizedStruct,
+                32,
+                AUnsizedStructInit { f0: 1, f1: 0x0203, f2: flat_vec![0x1111_2222_3333_4444u64; 2] },
+                "AUnsizedStructInit { f0: 1, f1: 0x0203, f2: flat_vec![0x1111222233334444; 2] }",
+                |v| v.f0 == 1 && v.f1 == 0x0203 && v.f2.as_slice() == [0x1111_2222_3333_4444u64; 2],
+                vec![1]
+            );
+            probe!(
+                AUnsizedEnum,
+                16,
+                AUnsizedEnumInitV2 { f0: 0xdead_beef, f1: flat_vec![5u8; 3] },
+                "AUnsizedEnumInitV2 { f0: 0xdeadbeef, f1: flat_vec![5u8; 3] }",
+                |v| match v.as_ref() {
+                    crate::shapes::AUnsizedEnumRef::V2 { f0, f1 } => *f0 == 0xdead_beef && f1.as_slice() == [5u8; 3],
+                    _ => false,
+                },
+                vec![2]
+            );
+        }
+    }
+    Ok(())
 }
